@@ -87,7 +87,7 @@ def run(ctx, chk, tier):
                 kind = None
                 if same(e, Const(0)):
                     kind = "zero"
-                    ok_guard = pcs.get(strict.key) is True
+                    ok_guard = pc_value(o.pc, strict) is True
                     ok_thr = same(t, div(add(lo_side, hi_side), Const(2)))
                     if ok_guard and ok_thr:
                         chk.hold("R06.2", inst, "EER 0 only under strict separation %s, threshold = midpoint %s" % (show(strict, 80), show(t, 80)))
@@ -107,10 +107,10 @@ def run(ctx, chk, tier):
                 elif same(e, cap):
                     kind = "cap"
                     chk.hold("R06.1", inst, "EER = cap = %s" % show(cap, 100))
-                elif same(e, hp) and easy and pcs.get(cmp0("lt", to_poly(sub(hp, hn))).key) is True:
+                elif same(e, hp) and easy and pc_value(o.pc, cmp0("lt", to_poly(sub(hp, hn)))) is True:
                     kind = "hp"
                     chk.hold("R06.1", inst, "EER = hard_pos_ratio under guard hard_pos_ratio < hard_neg_ratio")
-                elif same(e, hn) and easy and pcs.get(cmp0("lt", to_poly(sub(hp, hn))).key) is False:
+                elif same(e, hn) and easy and pc_value(o.pc, cmp0("lt", to_poly(sub(hp, hn)))) is False:
                     kind = "hn"
                     chk.hold("R06.1", inst, "EER = hard_neg_ratio under guard hard_neg_ratio <= hard_pos_ratio")
                 else:
@@ -174,6 +174,21 @@ def prerequisites(ctx, chk, tier):
     c10.purity(ctx, chk, only=("Scores.eer", "Scores.threshold_at_fpr", "Scores.threshold_at_fnr", "Scores.fpr", "Scores.fnr", "Scores.cm"), strict=False)
 
 
+def pc_value(pc, cond):
+    """Truth value the path condition gives to `cond`, whichever polarity / spelling (a < b, not a >= b) the code tested."""
+    n = negate(cond)
+    for c, t in pc:
+        if c.key == cond.key:
+            return t
+        if c.key == n.key:
+            return not t
+        if isinstance(c, App) and c.fn == "and" and t and any(x.key == cond.key for x in c.args):
+            return True
+        if isinstance(c, App) and c.fn == "or" and not t and any(x.key == cond.key for x in c.args):
+            return False
+    return None
+
+
 def find_root(ctx, chk):
     f = Sym("f", ("callable", "param"))
     XA, XE = Sym("xa", ("float", "notnone")), Sym("xe", ("float", "notnone"))
@@ -213,18 +228,19 @@ def find_root(ctx, chk):
             neg_c, pos_c = cmp0("lt", to_poly(fm)), cmp0("lt", to_poly(neg(fm)))
             pcs = {c.key: t for c, t in o.pc}
             todo = []
-            if pcs.get(neg_c.key) is True:
-                todo.append(("f(xm)<0", {}, (xm, e0)))
-            elif pcs.get(neg_c.key) is False:
-                if pos_c.key in pcs:
-                    if pcs[pos_c.key]:
-                        todo.append(("f(xm)>0", {}, (a0, xm)))
-                    else:
-                        todo.append(("f(xm)=0", {}, (a0, xm) if first else (xm, e0)))
-                else:
-                    todo.append(("f(xm)>0", {pos_c: TRUE, negate(pos_c): FALSE}, (a0, xm)))
-                    todo.append(("f(xm)=0", {pos_c: FALSE, negate(pos_c): TRUE}, (a0, xm) if first else (xm, e0)))
-            else:
+            # the three sign cases of f(xm); each is applied by substitution, and skipped when the path condition contradicts it
+            # (works whether the body forks on the sign, merges the arms into ite values, or mixes both)
+            cases = (("f(xm)<0", True, False, (xm, e0)), ("f(xm)>0", False, True, (a0, xm)), ("f(xm)=0", False, False, (a0, xm) if first else (xm, e0)))
+            for cname, is_neg, is_pos, want in cases:
+                if pcs.get(neg_c.key, is_neg) != is_neg or pcs.get(pos_c.key, is_pos) != is_pos:
+                    continue
+                if pcs.get(negate(neg_c).key, not is_neg) != (not is_neg) or pcs.get(negate(pos_c).key, not is_pos) != (not is_pos):
+                    continue
+                mp = {neg_c: TRUE if is_neg else FALSE, negate(neg_c): FALSE if is_neg else TRUE,
+                      pos_c: TRUE if is_pos else FALSE, negate(pos_c): FALSE if is_pos else TRUE}
+                todo.append((cname, mp, want))
+            other = [c for c, _t in o.pc if any(a_ == fm for a_ in atoms_of(c)) and c.key not in (neg_c.key, pos_c.key, negate(neg_c).key, negate(pos_c).key)]
+            if other:
                 chk.unknown("R06.4", "loop body of _find_root branches on something other than the sign of f(xm): %s" % pc_text(o)[:160])
                 continue
             for cname, mp, want in todo:
